@@ -27,6 +27,12 @@ TECH = {
  "R22": "segment typestate: no use of a segment value after its files were removed",
  "R23": "must-pass-through accounting between a round of Log.Delete and every later return of the multi-round drivers",
  "R24": "use-after-error: placeholder results of failed module calls never flow into a success return",
+ "R25": "backup completeness: must-pass-through of the hand-on call at every level of the backup chain",
+ "R26": "head index liveness: dominance of the not-head test over index unloading reachable from GC",
+ "R27": "constant propagation of the head flag at reader constructions in head-writer methods",
+ "R28": "argument provenance of per-segment Get calls in Log.Get",
+ "R29": "shape of the index timestamp derivation",
+ "R30": "taint analysis from time.Now() to branch conditions reachable from query methods",
 }
 
 TEXT = {
